@@ -215,7 +215,10 @@ pub fn parse(expression: &str) -> Result<Tokenized<'_, ExpressionMetadata>, Pars
     // Explicit lifetimes prevent inference errors.
     #[allow(clippy::needless_lifetimes)]
     fn flags_with_state<'i>(input: Input<'i>) -> ParseResult<'i, ()> {
-        flags(move |toggle| {
+        // Flags are not tokens, so flags at the beginning of a sub-expression do not move that
+        // beginning (a tree wildcard may follow them).
+        let is_boe = input.state.subexpression == input.location();
+        let (mut input, _) = flags(move |toggle| {
             move |mut input: Input<'i>| {
                 match toggle {
                     CaseInsensitive(toggle) => {
@@ -224,7 +227,11 @@ pub fn parse(expression: &str) -> Result<Tokenized<'_, ExpressionMetadata>, Pars
                 }
                 Ok((input, ()))
             }
-        })(input)
+        })(input)?;
+        if is_boe {
+            input.state.subexpression = input.location();
+        }
+        Ok((input, ()))
     }
 
     // Explicit lifetimes prevent inference errors.
